@@ -40,7 +40,7 @@ VARIABLES fileKV,     \* "ok" (the configured pairs) / "dirty" (pairs set while 
           scalars,    \* "ok" / "dirty": numRows, offsets, statistics, filter length, dictionary, page buffer ...
           hist
 vars == <<fileKV, live, aliased, rgs, open, scalars, hist>>
-view == <<fileKV, live, aliased, rgs, open, scalars>>
+view == <<fileKV, live, aliased, rgs, open, scalars, Len(hist)>>   \* the history is observation only; its length bounds the behaviour
 
 Init == /\ fileKV = "ok" /\ live = [f \in Fields |-> "ok"] /\ aliased = {} /\ rgs = 0 /\ open = FALSE
         /\ scalars = "ok" /\ hist = <<>>
